@@ -276,6 +276,7 @@ def finish(ctx, seed):
             "rules": rules_out,
             "known_findings_matched": sorted("%s %s" % k for k in printed_known),
             "informational_reports": info_reports,
+            "checker_selftest": getattr(ctx, "selftest", None),
         },
         "assumptions": ctx.assumptions,
         "wall_s": round(time.time() - ctx.t0 + ctx.info.get("extract_s", 0), 2),
@@ -283,6 +284,15 @@ def finish(ctx, seed):
     }
     with open(os.path.join(ev_dir, ctx.prop + ".json"), "w") as f:
         json.dump(ev, f, indent=1, default=str)
+    stt = getattr(ctx, "selftest", None)
+    if stt:
+        ms, sd = stt.get("mutants", []), stt.get("seeded", [])
+        print("%s checker self-test (thorough): %d/%d mutants caught, %d/%d seeded changes caught%s" % (
+            ctx.prop, sum(1 for x in ms if x["status"] == "CAUGHT"), len(ms), sum(1 for x in sd if x["status"] == "CAUGHT"), len(sd),
+            (" — " + str(stt.get("skipped") or stt.get("error"))) if (stt.get("skipped") or stt.get("error")) else ""))
+        for x in ms + sd:
+            if x["status"] != "CAUGHT":
+                print("  SELFTEST-%s %s" % (x["status"], x["id"]))
     print("%s: %d rule(s), %d instance(s), %d held, %d violation(s), %d known finding(s) [%s, facts %s%s]" % (
         ctx.prop, len(ctx.rules), obligations, discharged, nviol, len(printed_known), ctx.tier, ctx.info.get("tree_hash"), " cached" if ctx.info.get("cached") else ""))
     return 1 if nviol else 0
@@ -323,7 +333,68 @@ def main(argv):
         print("CHECK-ERROR property=%s: no check module (%s)" % (prop, e))
         return 2
     mod.run(ctx)
+    if tier == "thorough" and not os.environ.get("PGCAT_REPO"):
+        ctx.selftest = checker_selftest(prop)
     return finish(ctx, seed)
+
+
+def checker_selftest(prop):
+    """thorough tier: validate the checker itself both ways — every mutant recipe of this property
+    (engine/mutants.py) and every confirmed seeded change (seeded/*/patch.diff) is applied to a scratch
+    worktree of /repo's HEAD (outside /repo and /verif, removed afterwards) and must be reported."""
+    import tempfile
+    sys.path.insert(0, os.path.join(VERIF, "engine"))
+    res = {"mutants": [], "seeded": [], "note": "checker validation, not part of the property verdict"}
+    try:
+        from mutants import MUTANTS
+    except Exception as e:
+        res["error"] = str(e)
+        return res
+    st = subprocess.run(["git", "-C", REPO, "status", "--porcelain", "--untracked-files=no"], stdout=subprocess.PIPE, text=True).stdout.strip()
+    if st:
+        res["skipped"] = "/repo has uncommitted changes; the self-test works on a worktree of HEAD and would not see them"
+        return res
+    wt = tempfile.mkdtemp(prefix="pgcat-thorough-")
+    os.rmdir(wt)
+    evd = tempfile.mkdtemp(prefix="pgcat-thorough-ev-")
+    r = subprocess.run(["git", "-C", REPO, "worktree", "add", "-q", "--detach", wt, "HEAD"], stdout=subprocess.PIPE, stderr=subprocess.STDOUT, text=True)
+    if r.returncode:
+        res["error"] = r.stdout[-300:]
+        return res
+    env = dict(os.environ, PGCAT_REPO=wt, PGCAT_EVIDENCE_DIR=evd, VERIF_TIER="quick")
+    try:
+        for m in MUTANTS:
+            if m["prop"] != prop:
+                continue
+            path = os.path.join(wt, m["file"])
+            src = open(path).read()
+            if src.count(m["old"]) != 1:
+                res["mutants"].append({"id": m["id"], "status": "STALE"})
+                continue
+            open(path, "w").write(src.replace(m["old"], m["new"]))
+            out = subprocess.run([os.path.join(VERIF, "check"), prop], env=env, stdout=subprocess.PIPE, stderr=subprocess.STDOUT, text=True).stdout
+            open(path, "w").write(src)
+            status = "BUILD-ERROR" if "CHECK-ERROR" in out else ("CAUGHT" if ("VIOLATION property=%s" % prop) in out and m["expect"] in out else "MISSED")
+            res["mutants"].append({"id": m["id"], "status": status, "what": m["what"]})
+        import glob
+        for d in sorted(glob.glob(os.path.join(VERIF, "seeded", "*"))):
+            try:
+                meta = json.load(open(os.path.join(d, "meta.json")))
+            except Exception:
+                continue
+            if meta.get("property") != prop:
+                continue
+            a = subprocess.run(["git", "-C", wt, "apply", os.path.join(d, "patch.diff")], stdout=subprocess.PIPE, stderr=subprocess.STDOUT, text=True)
+            if a.returncode:
+                res["seeded"].append({"id": meta["id"], "status": "STALE"})
+                continue
+            out = subprocess.run([os.path.join(VERIF, "check"), prop], env=env, stdout=subprocess.PIPE, stderr=subprocess.STDOUT, text=True).stdout
+            subprocess.run(["git", "-C", wt, "checkout", "-q", "--", "."])
+            res["seeded"].append({"id": meta["id"], "status": "CAUGHT" if ("VIOLATION property=%s" % prop) in out else "MISSED"})
+    finally:
+        subprocess.run(["git", "-C", REPO, "worktree", "remove", "--force", wt], stdout=subprocess.PIPE, stderr=subprocess.STDOUT)
+        shutil.rmtree(evd, ignore_errors=True)
+    return res
 
 
 if __name__ == "__main__":
